@@ -25,16 +25,5 @@ Proof.
   destruct C as [->|[->|[->|[->|[->| ->]]]]]; vm_compute; intuition discriminate.
 Qed.
 
-(* obligation: OP_INFO and OP_AUTH limits admit a 255-byte name/ident plus a 20-byte nonce/digest *)
-Lemma limit_info_ok : 5 + 1 + 255 + 20 <= limitP 1.
-Proof. vm_compute. discriminate. Qed.
-Lemma limit_auth_ok : 5 + 1 + 255 + 20 <= limitP 2.
-Proof. vm_compute. discriminate. Qed.
-(* obligation: (UN)SUBSCRIBE limits admit 255-byte ident and channel *)
-Lemma limit_sub_ok : 5 + 1 + 255 + 255 <= limitP 4 /\ 5 + 1 + 255 + 255 <= limitP 5.
-Proof. vm_compute. split; discriminate. Qed.
-(* obligation: PUBLISH admits ident, channel and a payload of MAXBUF - 2*256 bytes; ERROR a MAXBUF text *)
-Lemma limit_pub_ok : 5 + maxbuf <= limitP 3 /\ 5 + maxbuf <= limitP 0.
-Proof. vm_compute. split; discriminate. Qed.
 Lemma max_limit_ok : 5 <= max_limit.
 Proof. vm_compute. discriminate. Qed.
